@@ -340,6 +340,31 @@ def run_populations(ctx):
             r = ctx.call(mm, q, timeout=30)
             judge(ctx, f"hostile key #{ki} (len {len(key)})", mm, q, r, "hostile-key")
             ctx.case(distinct_key=("key", ki, q["op"], mm))
+    # ---------------- (d2) long keys whose multi-byte characters straddle EVERY byte offset, on entries that are ABSENT
+    # (every by-key call then takes its failure path, which formats or stores the key), then written, then removed
+    # again; and through writers whose commit is refused. 'a'*i + c*n puts a character of width w across every offset
+    # that is not congruent to i modulo w, so the w keys of one character leave no offset uncovered.
+    cache = ctx.new_cache()
+    dest = ctx.new_dir("bdest")
+    bkeys = [("a" * i) + ch * 130 for ch in ("\u00e9", "\u4e2d", "\U0001F600") for i in range(len(ch.encode()))]
+    for ki, key in enumerate(bkeys):
+        for mode in modes:
+            data = b"boundary"
+            sri = ref.sri("sha256", data)
+            ddir = os.path.join(dest, f"b{ki}-{mode.replace('@', '-')}")
+            os.makedirs(ddir, exist_ok=True)
+            reqs = all_ops(ctx, cache, key, sri, ddir, data)
+            reqs += [{"op": "writer", "cache": cache, "key": key, "opts": {"size": len(data) + 1}, "chunks": [ctx.data(data)]},
+                     {"op": "writer", "cache": cache, "key": key, "opts": {"sri": ref.sri("sha256", b"other")}, "chunks": [ctx.data(data)]},
+                     {"op": "read", "cache": cache, "key": key}, {"op": "reader", "cache": cache, "key": key, "bufs": [7]},
+                     {"op": "copy", "cache": cache, "key": key, "to": os.path.join(ddir, "again")}]
+            for q in reqs:
+                mm = "sync@" + mode.split("@")[1] if q["op"] in c12.SYNC_ONLY_OPS and mode.startswith("async") else mode
+                r = ctx.call(mm, q, timeout=30)
+                judge(ctx, f"boundary key #{ki} ({len(key.encode())} bytes, {len(key[-1].encode())}-byte characters from offset {ki % 4})",
+                      mm, q, r, "boundary-key")
+                ctx.case(distinct_key=("boundary-key", ki, q["op"], mm))
+            ctx.count("boundary_key_programs")
     # ---------------- (e) linker option space (link_to): declared sizes on both sides of the target's, partial reads,
     # read_to_end, a target that shrinks or vanishes between open and commit
     base = ctx.new_dir("linkers")
